@@ -486,12 +486,18 @@ def cli(task):
             else:
                 hv = os.path.join(ds.dir, "haps.vcf")
                 ref = g.ref[g.start:g.stop]
-                alt = list(ref)
-                for p, a in zip(g.sites, alleles):
-                    alt[p - g.start] = a[1][0]
+                # ALT haplotypes presenting every listed allele, in the order of the SNV file
+                nalt = max(len(a[1]) for a in alleles)
+                alts = []
+                for k in range(nalt):
+                    h = list(ref)
+                    for p, a in zip(g.sites, alleles):
+                        if k < len(a[1]):
+                            h[p - g.start] = a[1][k]
+                    alts.append("".join(h))
                 text = ("##fileformat=VCFv4.3\n##contig=<ID=%s,length=%d>\n##INFO=<ID=SNVPOS,Number=.,Type=Integer,Description=\"x\">\n"
                         "#CHROM\tPOS\tID\tREF\tALT\tQUAL\tFILTER\tINFO\n%s\t%d\tL1\t%s\t%s\t.\t.\tSNVPOS=%s\n") % (
-                    g.contig, len(g.ref), g.contig, g.start + 1, ref, "".join(alt), ",".join(str(p - g.start + 1) for p in g.sites))
+                    g.contig, len(g.ref), g.contig, g.start + 1, ref, ",".join(alts), ",".join(str(p - g.start + 1) for p in g.sites))
                 hv = bamgen.write_text_vcf(hv, text)
                 argv += ["--haplotypes", hv]
                 mod = call_exact
